@@ -88,13 +88,6 @@ enum PVal {
     MaskedMode(usize),
     MaskedName(usize),
     MaskedKey(usize),
-    /// a REFERENCE member of a visible element - subject / object of a proposition, the
-    /// proposition / actor / cited evidence of an assertion, the source of an evidence record -
-    /// as `{"id": ..}`: symbol `s2` in S2 only where every authority of p that reaches the kind
-    /// masks the view member `tag`, symbol `s1` everywhere else
-    MaskedRef { tag: &'static str, s1: String, s2: String },
-    /// the predicate of a visible proposition (differs only where `predicate_ref` is masked)
-    MaskedPredicate(usize),
     /// the id of the k-th transaction AFTER the common part of the script (in S2 a commit of the
     /// hidden tail, in S1 one of the padding commits on a hidden element)
     TailTx(u64),
@@ -140,32 +133,6 @@ struct Script {
     /// a word of a visible person's name that a crowd of hidden tail elements repeats (they
     /// outrank the visible match in a keyword search)
     crowd_word: Option<String>,
-    /// (step index, symbol, subject, predicate, object) of every base-script proposition
-    prop_tuples: Vec<(usize, String, String, String, String)>,
-    /// propositions whose tuple has another value in S2 under a mask that hides the member
-    masked_tuples: Vec<MaskedTuple>,
-    /// assertions (and one evidence record) appended to the base script whose reference members
-    /// have another target in S2 under a mask that hides the member
-    late: Vec<Late>,
-}
-
-/// A proposition with the same id in S1 and S2 whose tuple differs where p's mask hides the member.
-#[derive(Clone, Debug)]
-struct MaskedTuple {
-    sym: String,
-    /// (subject, predicate, object) in S1 / in S2 when all three members are masked
-    s1: (String, String, String),
-    s2: (String, String, String),
-}
-
-/// An element created after the propositions whose references differ under a mask.
-#[derive(Clone, Debug)]
-struct Late {
-    sym: String,
-    /// S1 targets: proposition, actor, cited evidence (assertions) / source (the evidence record)
-    prop: Option<String>,
-    actor: Option<String>,
-    evidence: Option<String>,
 }
 
 struct World {
@@ -182,11 +149,6 @@ struct World {
     vary_mode: bool,
     vary_name: bool,
     vary_key: bool,
-    /// reference members (view keys) that follow the variant in this instance: `subject`,
-    /// `object`, `predicate_ref` of propositions, `proposition_id`, `asserted_by`, `evidence_refs`
-    /// of assertions, `source_refs` of evidence - each only where every authority of p that
-    /// reaches the kind masks it
-    vary_links: BTreeSet<&'static str>,
     /// Space sequence after the common part of the script
     base_seq: u64,
     /// Space sequence before the first step of the script
@@ -226,7 +188,6 @@ impl World {
             vary_mode: false,
             vary_name: false,
             vary_key: false,
-            vary_links: BTreeSet::new(),
             base_seq: 0,
             start_seq: 0,
             hidden_as: HiddenAs::Label("secret".into()),
@@ -254,8 +215,6 @@ impl World {
                     PVal::MaskedMode(i) => script.hidden_vals[if self.vary_mode { variant } else { 0 }][*i].clone(),
                     PVal::MaskedName(i) => script.hidden_vals[if self.vary_name { variant } else { 0 }][*i].clone(),
                     PVal::MaskedKey(i) => script.hidden_vals[if self.vary_key { variant } else { 0 }][*i].clone(),
-                    PVal::MaskedRef { tag, s1, s2 } => json!({"id": self.id(if variant == 1 && self.vary_links.contains(tag) { s2 } else { s1 })}),
-                    PVal::MaskedPredicate(i) => script.hidden_vals[if self.vary_links.contains("predicate_ref") { variant } else { 0 }][*i].clone(),
                 },
             );
         }
@@ -519,7 +478,6 @@ fn gen_script(rng: &mut Rng, size: usize) -> Script {
         }
         cmd.push('}');
         s.steps.push(Step::Kml { cmd, params, binds });
-        s.prop_tuples.push((s.steps.len() - 1, psym.clone(), subj.clone(), pred.to_string(), obj.clone()));
         // a proposition is hidden when explicitly classified; endpoints may be hidden independently
         if rng.chance(1, 4) {
             s.steps.push(Step::Classify { sym: psym.clone(), label: HIDDEN_LABEL });
@@ -606,124 +564,7 @@ fn gen_script(rng: &mut Rng, size: usize) -> Script {
             s.crowd_word = Some(word);
         }
     }
-    // reference members that a mask can hide; drawn from a stream of their own so that everything
-    // above is the script the seed always gave
-    let mut r2 = Rng::new(rng.clone().next_u64() ^ 0xC19C_0DE5);
-    vary_structure(&mut s, &mut r2);
     s
-}
-
-const PREDICATES: [&str; 3] = ["prefers", "mentions", "status"];
-
-/// Gives reference members of visible elements a second value for S2 (taken only where p's mask
-/// hides the member, see `PVal::MaskedRef`): subject / predicate / object of about two thirds of
-/// the propositions (ids stay the same: within every instance, whichever subset of the three
-/// members varies there, no two propositions share a tuple), and - appended to the base script -
-/// assertions whose proposition / actor / cited evidence and an evidence record whose source
-/// have another target. Alternatives are elements that are not explicitly hidden, with the same
-/// (absent) label where classification joins along the link (cited evidence, sources).
-fn vary_structure(s: &mut Script, r: &mut Rng) {
-    let visible = |pool: &[String], hidden: &BTreeSet<String>| pool.iter().filter(|x| !hidden.contains(*x)).cloned().collect::<Vec<String>>();
-    let persons = visible(&s.persons, &s.hidden);
-    let props = visible(&s.props, &s.hidden);
-    let evidence = visible(&s.evidence, &s.hidden);
-    let other = |r: &mut Rng, pool: &[String], not: &str| -> Option<String> {
-        let c: Vec<&String> = pool.iter().filter(|x| x.as_str() != not).collect();
-        if c.is_empty() { None } else { Some((*r.pick(&c)).clone()) }
-    };
-    // --- tuples: alts[i][c] = the tuple of proposition i in an instance where the members in bit
-    // set c (1 subject, 2 predicate, 4 object) follow S2
-    let base: Vec<(String, String, String)> = s.prop_tuples.iter().map(|(_, _, a, b, c)| (a.clone(), b.clone(), c.clone())).collect();
-    let mut alts: Vec<Vec<(String, String, String)>> = base.iter().map(|t| vec![t.clone(); 8]).collect();
-    for i in 0..base.len() {
-        if !r.chance(2, 3) {
-            continue;
-        }
-        for _try in 0..20 {
-            let (mut s2, mut p2, mut o2) = base[i].clone();
-            let which = 1 + r.below(7);
-            if which & 1 != 0 {
-                s2 = other(r, &persons, &base[i].0).unwrap_or(s2);
-            }
-            if which & 2 != 0 {
-                p2 = other(r, &PREDICATES.map(String::from), &base[i].1).unwrap_or(p2);
-            }
-            if which & 4 != 0 {
-                o2 = other(r, &persons, &base[i].2).unwrap_or(o2);
-            }
-            let cand: Vec<(String, String, String)> = (0..8usize)
-                .map(|c| (if c & 1 != 0 { s2.clone() } else { base[i].0.clone() }, if c & 2 != 0 { p2.clone() } else { base[i].1.clone() }, if c & 4 != 0 { o2.clone() } else { base[i].2.clone() }))
-                .collect();
-            let clash = (0..8).any(|c| (0..base.len()).any(|j| j != i && alts[j][c] == cand[c]));
-            if clash || cand[7] == base[i] {
-                continue;
-            }
-            alts[i] = cand;
-            break;
-        }
-    }
-    for (i, (step, sym, subj, pred, obj)) in s.prop_tuples.clone().into_iter().enumerate() {
-        let (s2, p2, o2) = alts[i][7].clone();
-        if (s2.clone(), p2.clone(), o2.clone()) == base[i] {
-            continue;
-        }
-        s.hidden_vals[0].push(json!(pred));
-        s.hidden_vals[1].push(json!(p2));
-        let pi = s.hidden_vals[0].len() - 1;
-        if let Step::Kml { cmd, params, .. } = &mut s.steps[step] {
-            *cmd = cmd.replacen(&format!("(:s, \"{pred}\", :o)"), "(:s, :pred, :o)", 1);
-            for (k, v) in params.iter_mut() {
-                match k.as_str() {
-                    "s" => *v = PVal::MaskedRef { tag: "subject", s1: subj.clone(), s2: s2.clone() },
-                    "o" => *v = PVal::MaskedRef { tag: "object", s1: obj.clone(), s2: o2.clone() },
-                    _ => {}
-                }
-            }
-            params.push(("pred".into(), PVal::MaskedPredicate(pi)));
-        }
-        s.masked_tuples.push(MaskedTuple { sym, s1: base[i].clone(), s2: (s2, p2, o2) });
-    }
-    // --- assertions about / by / citing something else in S2
-    if !props.is_empty() && !persons.is_empty() {
-        for k in 0..2 + r.usize(2) {
-            let sym = format!("assertion_late{k}");
-            let prop = r.pick(&props).clone();
-            let actor = r.pick(&persons).clone();
-            let prop2 = if r.chance(2, 3) { other(r, &props, &prop) } else { None }.unwrap_or_else(|| prop.clone());
-            let actor2 = if r.chance(2, 3) { other(r, &persons, &actor) } else { None }.unwrap_or_else(|| actor.clone());
-            let mut params = vec![
-                ("p".to_string(), PVal::MaskedRef { tag: "proposition_id", s1: prop.clone(), s2: prop2 }),
-                ("actor".to_string(), PVal::MaskedRef { tag: "asserted_by", s1: actor.clone(), s2: actor2 }),
-            ];
-            let mut cited = None;
-            let st = if !evidence.is_empty() && r.chance(2, 3) {
-                let ev = r.pick(&evidence).clone();
-                let ev2 = if r.chance(2, 3) { other(r, &evidence, &ev) } else { None }.unwrap_or_else(|| ev.clone());
-                params.push(("ev".to_string(), PVal::MaskedRef { tag: "evidence_refs", s1: ev.clone(), s2: ev2 }));
-                cited = Some(ev);
-                r#" SET STRUCTURAL { ("evidence", :ev) {role: "support"} }"#
-            } else {
-                ""
-            };
-            s.steps.push(Step::Kml {
-                cmd: format!(r#"CREATE ASSERTION ?a {{ SET FIELDS {{ proposition: :p, asserted_by: :actor, stance: "support", mode: "observed", confidence: 0.6 }}{st} }}"#),
-                params,
-                binds: vec![("a".into(), sym.clone())],
-            });
-            s.late.push(Late { sym, prop: Some(prop), actor: Some(actor), evidence: cited });
-        }
-    }
-    // --- an evidence record derived from another one
-    if let Some(src) = evidence.first().cloned() {
-        let src2 = other(r, &evidence, &src).unwrap_or_else(|| src.clone());
-        let sym = "evidence_late0".to_string();
-        s.steps.push(Step::Kml {
-            cmd: r#"CREATE EVIDENCE ?e { SET FIELDS { evidence_class: "tool_result", payload: "a derived note" } SET STRUCTURAL { ("source", :src) } }"#.into(),
-            params: vec![("src".into(), PVal::MaskedRef { tag: "source_refs", s1: src.clone(), s2: src2 })],
-            binds: vec![("e".into(), sym.clone())],
-        });
-        s.late.push(Late { sym, prop: None, actor: None, evidence: Some(src) });
-    }
 }
 
 // ---------------------------------------------------------------------------------------------
@@ -744,7 +585,6 @@ const INFLUENCE: [&str; 4] = ["descriptive", "advisory", "behavioral", "executab
 const KINDS: [&str; 4] = ["concept", "proposition", "assertion", "evidence"];
 /// View members a field mask can name, per kind (`id`, `kind`, `space_id` survive every mask).
 const CONCEPT_FIELDS: [&str; 7] = ["name", "key", "attributes", "facets", "_system", "schema_ref", "aliases"];
-const PROPOSITION_FIELDS: [&str; 6] = ["subject", "predicate_ref", "object", "attributes", "facets", "_system"];
 const ASSERTION_FIELDS: [&str; 7] = ["proposition_id", "asserted_by", "stance", "mode", "confidence", "lifecycle", "_system"];
 /// An instant that has certainly passed, in the engine's canonical form.
 const LONG_AGO: &str = "2020-01-01T00:00:00.000Z";
@@ -906,61 +746,49 @@ fn combine_sources(rng: &mut Rng, cfg: &mut GovCfg, mode: Mode, n: u64) {
     let via = *rng.pick(&VIAS);
     let strs = |xs: &[&str]| xs.iter().map(|x| x.to_string()).collect::<Vec<String>>();
     let same_ceiling = Extra { via, kinds: vec![], fields: vec![], ceiling: cfg.ceiling, ceiling_as_scope: rng.chance(1, 3), max_results: None, actions: read_actions(rng), expired: false };
-    if mode == Mode::MaskedFields && n % 5 != 0 {
+    if mode == Mode::MaskedFields && n % 4 != 0 {
         // (the narrow second grant shows `name` of concepts: it would undo a mask built to hide it)
         cfg.second_grant = false;
     }
     match mode {
-        Mode::MaskedFields => match n % 5 {
+        Mode::MaskedFields => match n % 4 {
             0 => {} // a single (masked) source, as generated
             1 => {
                 // Assertions under a mask, Concepts and Propositions in full: what the least
                 // restrictive source shows of a Concept says nothing about an Assertion
                 cfg.shape = "masked_assertions_beside_unmasked_concepts";
-                // (every other one also hides which proposition an assertion is about; which evidence
-                // it cites is never in the mask)
-                let hide: &[&str] = [&["stance", "mode"][..], &["mode", "confidence", "proposition_id"], &["stance", "confidence"], &["stance", "mode", "confidence", "proposition_id", "asserted_by"]][((n / 5) % 4) as usize];
+                let hide: &[&str] = [&["stance", "mode"][..], &["mode", "confidence"], &["stance", "confidence"], &["stance", "mode", "confidence"]][((n / 4) % 4) as usize];
                 cfg.kinds = if rng.bool() { strs(&["assertion"]) } else { strs(&["assertion", "evidence"]) };
                 cfg.fields = mask_without(rng, &ASSERTION_FIELDS, hide);
-                if !hide.contains(&"proposition_id") && rng.chance(2, 3) && !cfg.fields.iter().any(|f| f == "proposition_id") {
+                if rng.chance(2, 3) && !cfg.fields.iter().any(|f| f == "proposition_id") {
                     cfg.fields.push("proposition_id".into());
                 }
                 // every other one: the masked source also carries a result cap, the other none
                 // (the cap then applies to a read only through the elements it loads)
-                cfg.max_results = if (n / 5) % 2 == 0 { Some(1 + rng.below(2)) } else { None };
+                cfg.max_results = if (n / 4) % 2 == 0 { Some(1 + rng.below(2)) } else { None };
                 let kinds = if cfg.kinds.len() == 1 && rng.bool() { strs(&["concept", "proposition", "evidence"]) } else { strs(&["concept", "proposition"]) };
                 cfg.extras.push(Extra { kinds, ..same_ceiling });
             }
             2 => {
                 // the other way round
                 cfg.shape = "masked_concepts_beside_unmasked_assertions";
-                let hide: &[&str] = [&["name"][..], &["key"], &["attributes", "facets"], &["name", "key"]][((n / 5) % 4) as usize];
+                let hide: &[&str] = [&["name"][..], &["key"], &["attributes", "facets"], &["name", "key"]][((n / 4) % 4) as usize];
                 cfg.kinds = if rng.bool() { strs(&["concept"]) } else { strs(&["concept", "proposition"]) };
                 cfg.fields = mask_without(rng, &CONCEPT_FIELDS, hide);
-                cfg.max_results = if (n / 5) % 2 == 1 { Some(1 + rng.below(2)) } else { None };
+                cfg.max_results = if (n / 4) % 2 == 1 { Some(1 + rng.below(2)) } else { None };
                 let kinds = if cfg.kinds.len() == 1 { strs(&["assertion", "evidence", "proposition"]) } else { strs(&["assertion", "evidence"]) };
                 cfg.extras.push(Extra { kinds, ..same_ceiling });
             }
-            3 => {
+            _ => {
                 // two sources over the same kinds whose masks differ (e.g. a mask by policy, another
                 // by grant): only what BOTH hide is certainly hidden
                 cfg.shape = "two_masks_over_the_same_kinds";
-                let hide: &[&str] = [&["attributes", "stance", "subject"][..], &["facets", "confidence", "object", "proposition_id"], &["key", "mode", "predicate_ref", "evidence_refs"], &["name", "stance", "mode", "subject", "object", "asserted_by"]][((n / 5) % 4) as usize];
-                let pool: Vec<&str> = CONCEPT_FIELDS.iter().chain(ASSERTION_FIELDS.iter()).chain(["subject", "object", "predicate_ref", "payload", "evidence_refs", "source_refs"].iter()).copied().collect();
+                let hide: &[&str] = [&["attributes", "stance"][..], &["facets", "confidence"], &["key", "mode"], &["name", "stance", "mode"]][((n / 4) % 4) as usize];
+                let pool: Vec<&str> = CONCEPT_FIELDS.iter().chain(ASSERTION_FIELDS.iter()).chain(["subject", "object", "predicate_ref", "payload"].iter()).copied().collect();
                 cfg.kinds = vec![];
                 cfg.fields = mask_without(rng, &pool, hide);
                 let fields = mask_without(rng, &pool, hide);
                 cfg.extras.push(Extra { fields, ..same_ceiling });
-            }
-            _ => {
-                // Propositions under a mask that hides members of the tuple, everything else in
-                // full: p reads both endpoints, only not that this proposition connects them
-                cfg.shape = "masked_propositions_beside_unmasked_concepts";
-                let hide: &[&str] = [&["subject"][..], &["object"], &["predicate_ref"], &["subject", "predicate_ref", "object"]][((n / 5) % 4) as usize];
-                cfg.kinds = strs(&["proposition"]);
-                cfg.fields = mask_without(rng, &PROPOSITION_FIELDS, hide);
-                cfg.max_results = if (n / 5) % 2 == 0 { Some(1 + rng.below(2)) } else { None };
-                cfg.extras.push(Extra { kinds: strs(&["concept", "assertion", "evidence"]), ..same_ceiling });
             }
         },
         Mode::HiddenElements => match n % 6 {
@@ -1371,17 +1199,6 @@ fn masks(cfg: &GovCfg, kind: &str, field: &str) -> bool {
     reached
 }
 
-/// Reference members that vary under a mask: (tag, element kind, view key of the member).
-const LINK_MEMBERS: [(&str, &str, &str); 7] = [
-    ("subject", "proposition", "subject"),
-    ("object", "proposition", "object"),
-    ("predicate_ref", "proposition", "predicate_ref"),
-    ("proposition_id", "assertion", "proposition_id"),
-    ("asserted_by", "assertion", "asserted_by"),
-    ("evidence_refs", "assertion", "evidence_refs"),
-    ("source_refs", "evidence", "source_refs"),
-];
-
 async fn space_seq(nx: &CognitiveNexus) -> Result<u64, String> {
     Ok(nx.store.get_space(DEFAULT_SPACE).await.map_err(gerr("get_space"))?.seq)
 }
@@ -1404,7 +1221,6 @@ async fn build(name: &str, script: &Script, cfg: &GovCfg, variant: usize, tail: 
         vary_mode: masked_mode && masks(cfg, "assertion", "mode"),
         vary_name: masked_mode && masks(cfg, "concept", "name"),
         vary_key: masked_mode && masks(cfg, "concept", "key"),
-        vary_links: LINK_MEMBERS.iter().filter(|(_, kind, field)| masked_mode && masks(cfg, kind, field)).map(|(tag, _, _)| *tag).collect(),
         base_seq: 0,
         start_seq: 0,
         hidden_as: hidden_as.clone(),
@@ -1464,9 +1280,7 @@ fn qp(family: &'static str, cmd: &str, params: Vec<(&str, PVal)>) -> Q {
     Q { family, cmd: cmd.to_string(), params: params.into_iter().map(|(k, v)| (k.to_string(), v)).collect(), paged: None }
 }
 
-/// `links`: with the entries that select on reference members a mask can hide (the tuple of a
-/// proposition, what an assertion is about / by / cites) - the non-interference monitor only.
-fn battery(rng: &mut Rng, s: &Script, links: bool) -> Vec<Q> {
+fn battery(rng: &mut Rng, s: &Script) -> Vec<Q> {
     let mut b = vec![];
     let lit = |v: Value| PVal::Lit(v);
     let word = |rng: &mut Rng| rng.pick(&WORDS).to_string();
@@ -1577,9 +1391,6 @@ fn battery(rng: &mut Rng, s: &Script, links: bool) -> Vec<Q> {
     if let Some(p) = s.props.first() {
         b.push(qp("masked_pattern", r#"FIND(?a.id) WHERE { ?a ASSERTION {proposition: :p, stance: "support"} }"#, vec![("p", PVal::Id(p.clone()))]));
     }
-    if links {
-        link_battery(&mut b, s);
-    }
     // --- the first element only the bigger instance has (hidden there)
     let ghost = s.first_tail_concept.clone();
     b.push(qp("tail_element", r#"FIND(?c) WHERE { ?c CONCEPT {id: :id} }"#, vec![("id", lit(json!(ghost)))]));
@@ -1641,92 +1452,6 @@ fn battery(rng: &mut Rng, s: &Script, links: bool) -> Vec<Q> {
     // --- PREVIEW computes an effect over real state
     b.push(qp("preview", "PREVIEW KML :cmd", vec![("cmd", lit(json!(r#"ARCHIVE ?c WHERE { ?c CONCEPT {type: "Person"} } LIMIT 50"#)))]));
     b
-}
-
-/// Battery entries that select on REFERENCE members a field mask can hide. Every entry names the
-/// values the member has in S1 (the same command goes to both instances).
-///  * family `masked_tuple`: tuple patterns over a proposition whose subject / predicate / object
-///    differs in S2 - bound subject, bound object (as reference and as id string), both bound,
-///    both variables by predicate, a variable predicate; joined with element patterns; hop-quantified
-///    and alternated paths through it; NOT / OPTIONAL / UNION / COUNT; ORDER BY + LIMIT and paging;
-///    at a past coordinate; EXPORT with a tuple selection and with a referential closure; the
-///    members read through the view by id;
-///  * family `belief_tuple`: BELIEF named by such a tuple, BELIEF of what a tuple pattern bound,
-///    BELIEF SLOT of its subject;
-///  * family `masked_link`: assertions selected by the proposition they are about / the actor they
-///    are by (bound, as variables, negated, counted), the evidence they cite and the source of an
-///    evidence record (read, filtered, exported with a provenance closure).
-fn link_battery(b: &mut Vec<Q>, s: &Script) {
-    let last_step = s.steps.len() - 1;
-    for (n, t) in s.masked_tuples.iter().take(2).enumerate() {
-        let (subj, pred, obj) = t.s1.clone();
-        let pred2 = PREDICATES.iter().find(|p| **p != pred).unwrap_or(&"mentions");
-        let sp = || ("s", PVal::Ref(subj.clone()));
-        let op = || ("o", PVal::Ref(obj.clone()));
-        let mut add = |family: &'static str, cmd: String, params: Vec<(&str, PVal)>| b.push(qp(family, &cmd, params));
-        add("masked_tuple", format!(r#"FIND(?o.id) WHERE {{ (:s, "{pred}", ?o) }}"#), vec![sp()]);
-        add("masked_tuple", format!(r#"FIND(?s.id, ?s.name) WHERE {{ (?s, "{pred}", :o) }}"#), vec![op()]);
-        add("masked_tuple", r#"FIND(?p.id, ?pred) WHERE { ?p PROPOSITION (:s, ?pred, :o) }"#.into(), vec![sp(), op()]);
-        add("masked_tuple", format!(r#"FIND(?c.id, ?c.name) WHERE {{ ?c CONCEPT {{type: "Person"}} (?c, "{pred}", :o) }}"#), vec![op()]);
-        add("masked_tuple", format!(r#"FIND(?y.id) WHERE {{ (:s, "{pred}"{{1,2}}, ?y) }}"#), vec![sp()]);
-        add("masked_tuple", format!(r#"FIND(?c.id) WHERE {{ ?c CONCEPT {{type: "Person"}} NOT {{ (?c, "{pred}", :o) }} }}"#), vec![op()]);
-        add("masked_tuple", r#"FIND(COUNT(?o)) WHERE { (:s, ?pred, ?o) }"#.into(), vec![sp()]);
-        add("masked_tuple", format!(r#"EXPORT CAPSULE ?p WHERE {{ ?p PROPOSITION (:s, "{pred}", ?o) }}"#), vec![sp()]);
-        add("belief_tuple", format!(r#"FIND(?b.status) WHERE {{ ?b BELIEF (:s, "{pred}", :o) }}"#), vec![sp(), op()]);
-        if n > 0 {
-            continue;
-        }
-        // the first such proposition gets the long list
-        add("masked_tuple", format!(r#"FIND(?s.id) WHERE {{ (?s, "{pred}", :oid) }}"#), vec![("oid", PVal::Id(obj.clone()))]);
-        add("masked_tuple", format!(r#"FIND(?p.id) WHERE {{ ?p PROPOSITION (:s, "{pred}", :o) }}"#), vec![sp(), op()]);
-        add("masked_tuple", format!(r#"FIND(?s.id, ?o.id) WHERE {{ (?s, "{pred}", ?o) }}"#), vec![]);
-        add("masked_tuple", format!(r#"FIND(?c.name) WHERE {{ (:s, "{pred}", ?c) ?c CONCEPT {{type: "Person"}} }}"#), vec![sp()]);
-        add("masked_tuple", format!(r#"FIND(?a.id) WHERE {{ ?p PROPOSITION (:s, "{pred}", ?o) ?a ASSERTION {{proposition: ?p}} }}"#), vec![sp()]);
-        add("masked_tuple", format!(r#"FIND(?x.id) WHERE {{ (?x, "{pred}"{{1,3}}, :o) }}"#), vec![op()]);
-        add("masked_tuple", format!(r#"FIND(?y.id) WHERE {{ (:s, "{pred}"{{0,2}}, ?y) }}"#), vec![sp()]);
-        add("masked_tuple", format!(r#"FIND(?x.id, ?y.id) WHERE {{ (?x, "{pred}"{{2,3}}, ?y) }}"#), vec![]);
-        add("masked_tuple", format!(r#"FIND(?c.id) WHERE {{ ?c CONCEPT {{type: "Person"}} (?c, "{pred}"{{1,2}}, :o) }}"#), vec![op()]);
-        add("masked_tuple", format!(r#"FIND(?y.id) WHERE {{ (:s, "{pred}" | "{pred2}", ?y) }}"#), vec![sp()]);
-        add("masked_tuple", r#"FIND(?c.id) WHERE { ?c CONCEPT {type: "Person"} NOT { (:s, ?pred, ?c) } }"#.into(), vec![sp()]);
-        add("masked_tuple", format!(r#"FIND(?c.id, ?p.id) WHERE {{ ?c CONCEPT {{type: "Person"}} OPTIONAL {{ ?p PROPOSITION (?c, "{pred}", :o) }} }}"#), vec![op()]);
-        add("masked_tuple", format!(r#"FIND(?x.id) WHERE {{ (:s, "{pred}", ?x) UNION {{ (?x, "{pred}", :o) }} }}"#), vec![sp(), op()]);
-        add("masked_tuple", format!(r#"FIND(COUNT(?p), COUNT(DISTINCT ?s)) WHERE {{ ?p PROPOSITION (?s, "{pred}", ?o) }}"#), vec![]);
-        add("masked_tuple", format!(r#"FIND(?p.id) WHERE {{ ?p PROPOSITION (?s, "{pred}", ?o) }} ORDER BY ?o.id DESC LIMIT 1"#), vec![]);
-        add("masked_tuple", format!(r#"FIND(?s.id) WHERE {{ (?s, "{pred}", ?o) }} ORDER BY ?s.name ASC, ?s.id ASC LIMIT 2"#), vec![]);
-        add("masked_tuple", format!(r#"FIND(?o.id) WHERE {{ (:s, "{pred}", ?o) }} AS OF SEQ :seq"#), vec![sp(), ("seq", PVal::SeqOfStep(last_step))]);
-        add("masked_tuple", format!(r#"EXPORT CAPSULE ?o WHERE {{ (:s, "{pred}", ?o) }}"#), vec![sp()]);
-        add("masked_tuple", r#"EXPORT CAPSULE ?p WHERE { ?p PROPOSITION (id: :pid) } WITH {closure: "referential"}"#.into(), vec![("pid", PVal::Id(t.sym.clone()))]);
-        add("masked_tuple", r#"FIND(?p.subject, ?p.predicate_ref, ?p.object) WHERE { ?p PROPOSITION (id: :pid) }"#.into(), vec![("pid", PVal::Id(t.sym.clone()))]);
-        add("masked_tuple", r#"FIND(?p.id) WHERE { ?a ASSERTION {proposition: ?p} FILTER(IS_NULL(?p.object)) }"#.into(), vec![]);
-        add("masked_tuple", "HISTORY ELEMENT :pid".into(), vec![("pid", PVal::Id(t.sym.clone()))]);
-        add("belief_tuple", r#"FIND(?p.id, ?b.status) WHERE { ?p PROPOSITION (:s, ?pred, ?o) ?b BELIEF (?p) }"#.into(), vec![sp()]);
-        add("belief_tuple", format!(r#"FIND(?slot) WHERE {{ ?slot BELIEF SLOT (:s, "{pred}") }}"#), vec![sp()]);
-        b.push(Q { paged: Some(1), ..qp("masked_tuple", r#"FIND(?o.id) WHERE { (:s, ?pred, ?o) } ORDER BY ?o.id ASC LIMIT :lim"#, vec![sp()]) });
-    }
-    // --- what an assertion is about / by / cites, what an evidence record derives from
-    for l in s.late.iter().filter(|l| l.prop.is_some()).take(2) {
-        let (prop, actor) = (l.prop.clone().unwrap_or_default(), l.actor.clone().unwrap_or_default());
-        b.push(qp("masked_link", r#"FIND(?a.id) WHERE { ?a ASSERTION {proposition: :p} }"#, vec![("p", PVal::Id(prop.clone()))]));
-        b.push(qp("masked_link", r#"FIND(COUNT(?a)) WHERE { ?a ASSERTION {asserted_by: :c} }"#, vec![("c", PVal::Id(actor.clone()))]));
-        b.push(qp("masked_link", r#"FIND(?a.id, ?a.proposition_id, ?a.asserted_by, ?a.evidence_refs) WHERE { ?a ASSERTION {id: :a} }"#, vec![("a", PVal::Id(l.sym.clone()))]));
-        b.push(qp("masked_link", r#"EXPORT CAPSULE ?a WHERE { ?a ASSERTION {id: :a} } WITH {closure: "referential", provenance_depth: 2}"#, vec![("a", PVal::Id(l.sym.clone()))]));
-        b.push(qp("masked_link", r#"FIND(?c.id) WHERE { ?c CONCEPT {type: "Person"} NOT { ?a ASSERTION {asserted_by: ?c, proposition: :p} } }"#, vec![("p", PVal::Id(prop.clone()))]));
-        b.push(qp("masked_link", r#"FIND(?a.id) WHERE { ?p PROPOSITION (id: :p) ?a ASSERTION {proposition: ?p} }"#, vec![("p", PVal::Id(prop))]));
-        if l.evidence.is_some() {
-            b.push(q("masked_link", r#"FIND(?a.id, ?a.evidence_refs) WHERE { ?a ASSERTION {} FILTER(IS_NOT_NULL(?a.evidence_refs)) } ORDER BY ?a.evidence_refs ASC, ?a.id ASC"#));
-        }
-    }
-    if !s.late.is_empty() {
-        b.push(q("masked_link", r#"FIND(COUNT(DISTINCT ?p), COUNT(?a)) WHERE { ?a ASSERTION {proposition: ?p} }"#));
-        b.push(q("masked_link", r#"FIND(?a.id, ?c.id) WHERE { ?a ASSERTION {asserted_by: ?c} } ORDER BY ?c.id ASC, ?a.id ASC LIMIT 3"#));
-        b.push(q("masked_link", r#"FIND(?p.id) WHERE { ?p PROPOSITION (?s, ?pred, ?o) NOT { ?a ASSERTION {proposition: ?p, status: "active"} } }"#));
-        b.push(q("belief_tuple", r#"FIND(?p.id, ?b.status) WHERE { ?a ASSERTION {proposition: ?p} ?b BELIEF (?p) }"#));
-    }
-    for l in s.late.iter().filter(|l| l.prop.is_none()) {
-        b.push(qp("masked_link", r#"FIND(?e.id, ?e.source_refs) WHERE { ?e EVIDENCE {id: :e} }"#, vec![("e", PVal::Id(l.sym.clone()))]));
-        b.push(qp("masked_link", r#"EXPORT CAPSULE ?e WHERE { ?e EVIDENCE {id: :e} } WITH {closure: "referential", provenance_depth: 2}"#, vec![("e", PVal::Id(l.sym.clone()))]));
-        b.push(q("masked_link", r#"FIND(?e.id) WHERE { ?e EVIDENCE {} FILTER(IS_NOT_NULL(?e.source_refs)) }"#));
-    }
 }
 
 /// Runs one battery entry as `sess`; the observable is the list of response envelopes (one per
@@ -1922,10 +1647,6 @@ fn report(st: &mut Stats, sig: String, mut detail: Value) {
         *e
     };
     st.count(&format!("violations_seen[{sig}]"));
-    if let Some(q) = detail.get("query").and_then(Value::as_str) {
-        // which battery entries show it (all occurrences, not only the two that are reported)
-        st.count(&format!("violations_seen_by_query[{sig}][{}]", q.chars().take(72).collect::<String>()));
-    }
     if n <= 2 {
         // replay coordinates (vcore tags only violations it sees inside the section)
         let section = sig.split('/').nth(1).unwrap_or("ni").to_string();
@@ -2134,7 +1855,7 @@ fn ni_case(case: u64, rng: &mut Rng, st: &mut Stats, thorough: bool) {
         }
     }
     let hidden_as = if per_kind.is_empty() { hidden_as } else { HiddenAs::PerKind(per_kind, Box::new(hidden_as)) };
-    let bat = battery(rng, &script, true);
+    let bat = battery(rng, &script);
     let mut search_terms: Vec<String> = (0..2).map(|_| rng.pick(&WORDS).to_string()).collect();
     if let Some(w) = &script.crowd_word {
         search_terms.push(w.clone());
@@ -2187,14 +1908,6 @@ fn ni_case(case: u64, rng: &mut Rng, st: &mut Stats, thorough: bool) {
                     st.count(&format!("masked_configurations_varying_{what}"));
                 }
             }
-            for (tag, kind, _) in LINK_MEMBERS {
-                if w2.vary_links.contains(tag) {
-                    st.count(&format!("masked_configurations_varying_{kind}_{tag}"));
-                }
-            }
-            if ["subject", "object", "predicate_ref"].iter().any(|t| w2.vary_links.contains(t)) && !script.masked_tuples.is_empty() {
-                st.count("masked_configurations_with_a_proposition_whose_tuple_differs");
-            }
         }
         let mut nontrivial = false;
         let mut allowed_some = false;
@@ -2237,10 +1950,7 @@ fn ni_case(case: u64, rng: &mut Rng, st: &mut Stats, thorough: bool) {
             // an Epistemic Projection may be computed from assertions whose raw stance / confidence
             // the caller's mask hides (Spec 29.4: `project` is a permission of its own and "MAY allow
             // a projected result without revealing raw Evidence"): not judged, counted
-            // (likewise which proposition an assertion is about, whom it is by and what it cites:
-            // the projection counts and groups assertions by exactly these)
-            let assertion_members_vary = w2.vary_stance || w2.vary_confidence || w2.vary_mode || ["proposition_id", "asserted_by", "evidence_refs"].iter().any(|t| w2.vary_links.contains(t));
-            let judged = !(q.family.starts_with("belief") && assertion_members_vary);
+            let judged = !(q.family == "belief" && (w2.vary_stance || w2.vary_confidence || w2.vary_mode));
             if !judged {
                 st.count("belief_pairs_not_judged_projection_may_use_masked_fields");
             }
@@ -2305,9 +2015,6 @@ fn ni_case(case: u64, rng: &mut Rng, st: &mut Stats, thorough: bool) {
                         "hidden_as": format!("{hidden_as:?}"),
                         "space_seq(S1|S2)": [space_seq(&w1.nx).await.unwrap_or(0), space_seq(&w2.nx).await.unwrap_or(0)],
                         "base_seq": w1.base_seq,
-                        "masked_reference_members_that_differ": w2.vary_links.iter().collect::<Vec<_>>(),
-                        "propositions_whose_tuple_may_differ(id, S1, S2 if all three members are masked)": if mode == Mode::MaskedFields { script.masked_tuples.iter().map(|t| json!([w1.id(&t.sym),
-                            [w1.id(&t.s1.0), t.s1.1, w1.id(&t.s1.2)], [w1.id(&t.s2.0), t.s2.1, w1.id(&t.s2.2)]])).collect::<Vec<_>>() } else { vec![] },
                         "s2_only_tail": if mode == Mode::HiddenElements { script.tail.iter().map(|t| match t {
                             Step::Kml { cmd, params, .. } => format!("{cmd}  {}", w2.params(&script, 1, params)),
                             Step::Classify { sym, label } => format!("classify({}, {label})", w2.id(sym)),
@@ -2326,17 +2033,10 @@ fn ni_case(case: u64, rng: &mut Rng, st: &mut Stats, thorough: bool) {
                     st.count("ni_pairs_p_answered_and_owner_sees_difference");
                     st.count(&format!("ni_decisive_pairs_{}", q.family));
                     st.count(&format!("ni_decisive_pairs_mode_{}", mode.tag()));
-                    if mode == Mode::MaskedFields && judged {
-                        // (a judged pair of the masked-field mode: only masked members differ)
-                        st.count(&format!("ni_decisive_judged_pairs_masked_fields_{}", q.family));
-                    }
                     if cfg.shape != "single_source" {
                         st.count(&format!("ni_decisive_pairs_shape_{}", cfg.shape));
                         if q.family == "masked_pattern" {
                             st.count(&format!("ni_decisive_masked_pattern_pairs_shape_{}", cfg.shape));
-                        }
-                        if q.family == "masked_tuple" {
-                            st.count(&format!("ni_decisive_masked_tuple_pairs_shape_{}", cfg.shape));
                         }
                     }
                 }
@@ -2395,7 +2095,7 @@ const FRESH: &str = "kip:principal:fresh";
 fn timeline_case(case: u64, rng: &mut Rng, st: &mut Stats) {
     let script = gen_script(rng, 4);
     let mut cfg = gen_cfg(rng);
-    let bat = battery(rng, &script, false);
+    let bat = battery(rng, &script);
     // every kind of event in turn, so that each is exercised whatever the seed
     const EVENTS: [&str; 8] = ["revoke", "suspend", "revoke_principal", "deny", "expiry", "leave_group", "policy_withdrawn", "revoke_delegation"];
     let event = EVENTS[(case % EVENTS.len() as u64) as usize];
@@ -2840,7 +2540,7 @@ fn delegation_case(case: u64, rng: &mut Rng, st: &mut Stats) {
         Some((d, r)) => format!("{d}_{}", format!("{r:?}").to_lowercase()),
         None => "every_bound_contained".to_string(),
     };
-    let bat = battery(rng, &script, false);
+    let bat = battery(rng, &script);
     let res: Result<(), String> = vcore::run::block_on(async {
         let nx = fresh_nexus(&format!("c19_dg_{case}")).await?;
         let gov = nx.governance();
@@ -3420,24 +3120,6 @@ fn main() {
         ("masked_configurations_varying_assertion_stance", f(3)),
         ("masked_configurations_varying_assertion_confidence", f(3)),
         ("masked_configurations_varying_assertion_mode", f(3)),
-        // reference members under a mask: the tuple of a proposition, what an assertion is about /
-        // by / cites, what an evidence record derives from
-        ("masked_configurations_varying_proposition_subject", f(4)),
-        ("masked_configurations_varying_proposition_object", f(4)),
-        ("masked_configurations_varying_proposition_predicate_ref", f(4)),
-        ("masked_configurations_varying_assertion_proposition_id", f(3)),
-        ("masked_configurations_varying_assertion_asserted_by", f(3)),
-        ("masked_configurations_varying_assertion_evidence_refs", f(4)),
-        ("masked_configurations_varying_evidence_source_refs", f(3)),
-        ("masked_configurations_with_a_proposition_whose_tuple_differs", f(6)),
-        ("config_shape_masked_fields_masked_propositions_beside_unmasked_concepts", f(3)),
-        ("ni_decisive_pairs_shape_masked_propositions_beside_unmasked_concepts", f(20)),
-        ("ni_decisive_masked_tuple_pairs_shape_masked_propositions_beside_unmasked_concepts", f(10)),
-        ("ni_decisive_masked_tuple_pairs_shape_two_masks_over_the_same_kinds", f(10)),
-        ("ni_decisive_masked_tuple_pairs_shape_masked_concepts_beside_unmasked_assertions", f(8)),
-        ("ni_decisive_pairs_masked_tuple", f(250)),
-        ("ni_decisive_pairs_masked_link", f(100)),
-        ("ni_decisive_pairs_belief_tuple", f(40)),
         ("ni_decisive_pairs_shape_masked_assertions_beside_unmasked_concepts", f(8)),
         ("ni_decisive_pairs_shape_masked_concepts_beside_unmasked_assertions", f(30)),
         ("ni_decisive_pairs_shape_two_masks_over_the_same_kinds", f(30)),
